@@ -142,3 +142,38 @@ fn c13_write_after_flush_bounded() {
     let want = if j < 8 * first { j < k1 && b1[j] } else { j - 8 * first < k2 && b2[j - 8 * first] };
     assert!(got == want);
 }
+
+/// kind: bounded(3-byte slice, window start <= 7, end byte-aligned; <= 9 single-bit reads, then close)
+/// a window over a byte slice that starts inside a byte reads the right bits, and close succeeds exactly when only
+/// zero bits remain in the last byte of the window
+#[kani::proof]
+#[kani::unwind(12)]
+fn c13_window_close_bounded() {
+    let bytes: [u8; 3] = kani::any();
+    let start: usize = kani::any();
+    kani::assume(start <= 7);
+    let end_bytes: usize = kani::any();
+    kani::assume(end_bytes >= 1 && end_bytes <= 3);
+    let end = 8 * end_bytes;
+    let bit = |j: usize| bytes[j / 8] & (1 << (7 - j % 8)) != 0;
+    let mut it = BitIter::byte_slice_window(&bytes, start, end);
+    let k: usize = kani::any();
+    kani::assume(k <= 9 && start + k <= end);
+    let mut i = 0;
+    while i < k {
+        assert!(it.read_bit() == Ok(bit(start + i)));
+        i += 1;
+    }
+    let consumed = start + k;
+    let mut rest_zero = true;
+    let mut q = consumed;
+    // the rest of the current byte (if the cursor stands inside one)
+    while q % 8 != 0 {
+        if bit(q) {
+            rest_zero = false;
+        }
+        q += 1;
+    }
+    let no_more_bytes = (consumed + 7) / 8 * 8 >= end;
+    assert!(it.close().is_ok() == (no_more_bytes && rest_zero));
+}
